@@ -224,7 +224,8 @@ struct Res {
 
 fn configs(tier: Tier) -> Vec<(String, Vec<String>)> {
     let mut v = Vec::new();
-    let (ps, bs): (&[usize], &[usize]) = if tier.is_thorough() { (&[1, 2, 3], &[1, 2, 2048]) } else { (&[1, 3], &[2, 2048]) };
+    // "large" batch = 16: the tables have <= 3 rows, and small buffers keep the run fast
+    let (ps, bs): (&[usize], &[usize]) = if tier.is_thorough() { (&[1, 2, 3], &[1, 2, 16, 2048]) } else { (&[1, 3], &[2, 16]) };
     for hj in [true, false] {
         for &p in ps {
             for &b in bs {
@@ -264,7 +265,7 @@ fn run_db(kt: &KeyType, l: &Side, r: &Side, fs: &[(String, Query)], cfgs: &[(Str
                 d.must(s);
             }
             // TEMP-table scans ignore batch_size (known finding under C03): small batch sizes use inline VALUES
-            let small_b = !cname.contains("B2048");
+            let small_b = cname.contains("B1H") || cname.contains("B2H");
             let sql = if small_b { substitute_sources(&q.sql(), &values_from(kt, l, "l", "p"), &values_from(kt, r, "r", "q")) } else { q.sql() };
             let out = d.q(&sql);
             res.evals += 1;
